@@ -11,6 +11,8 @@ EXTENDS Match, Json, TLC
 
 CONSTANTS MaxRoutes,    \* routes per table
           MaxGone,      \* routes that were added and deleted again (`route del`) before the lookup
+          ObsSel,       \* observers that may read the installed table before the lookup
+          MaxObs,       \* how many of them
           PatSel,       \* indices into PatU usable in this run
           PathSel,      \* indices into PathU usable in this run
           HostSel       \* indices into HostU asked in this run
@@ -113,10 +115,17 @@ MCTinyPaths == {1, 2, 3}
 \* The table a request is looked up in is what a HISTORY of route commands has left: the
 \* routes that were added and still have a target.  A route whose targets were all deleted
 \* again is not a route of the table (it can neither serve nor shadow anything).
-VARIABLES tbl,   \* set of route indices: the routes of the table
-          gone,  \* routes that were added and then deleted (history; they are not in the table)
-          ph     \* "build" | "ask" | "done"
-vars == <<tbl, gone, ph>>
+\* Between the installation of a table and a lookup other parties READ the table: the text
+\* rendering (Table.String), the dump, the admin API (GET /api/routes, with and without ?raw).
+\* Reading is not an action on the table: Observe leaves tbl unchanged, so every answer after any
+\* number of observations is the answer before them.
+VARIABLES tbl,    \* set of route indices: the routes of the table
+          gone,   \* routes that were added and then deleted (history; they are not in the table)
+          seenBy, \* observers that have read the installed table so far
+          ph      \* "build" | "ask" | "done"
+vars == <<tbl, gone, seenBy, ph>>
+MCNoObs  == {}
+MCAllObs == {"String", "Dump", "api-routes", "api-routes-raw"}
 
 Table(t) == {RouteOf(i) : i \in t}
 
@@ -157,23 +166,26 @@ ExpectSni(t, h) ==
 
 CaseJson(hi, tls) ==
     LET t == Table(tbl) IN
-    [t |-> tbl, d |-> gone, h |-> hi, tls |-> IF tls THEN 1 ELSE 0,
+    [t |-> tbl, d |-> gone, o |-> seenBy, h |-> hi, tls |-> IF tls THEN 1 ELSE 0,
      w |-> Rows(tbl, hi, tls),
      sni |-> ExpectSni(t, HostU[hi])]
 
-Init == tbl = {} /\ gone = {} /\ ph = "build" /\ PrintT(ToJson(Universe))
+Init == tbl = {} /\ gone = {} /\ seenBy = {} /\ ph = "build" /\ PrintT(ToJson(Universe))
+Observe(o) == /\ ph = "ask" /\ o \in ObsSel \ seenBy /\ Cardinality(seenBy) < MaxObs
+              /\ seenBy' = seenBy \cup {o} /\ UNCHANGED <<tbl, gone, ph>>
 \* route add
 Grow(i) == /\ ph = "build" /\ Cardinality(tbl) < MaxRoutes /\ i \notin tbl \cup gone
-           /\ tbl' = tbl \cup {i} /\ ph' = ph /\ gone' = gone
+           /\ tbl' = tbl \cup {i} /\ ph' = ph /\ gone' = gone /\ seenBy' = seenBy
 \* route del of everything route i has
 Retire(i) == /\ ph = "build" /\ i \in tbl /\ Cardinality(gone) < MaxGone
-             /\ tbl' = tbl \ {i} /\ gone' = gone \cup {i} /\ ph' = ph
-Seal == ph = "build" /\ tbl # {} /\ ph' = "ask" /\ tbl' = tbl /\ gone' = gone
+             /\ tbl' = tbl \ {i} /\ gone' = gone \cup {i} /\ ph' = ph /\ seenBy' = seenBy
+Seal == ph = "build" /\ tbl # {} /\ ph' = "ask" /\ tbl' = tbl /\ gone' = gone /\ seenBy' = seenBy
 Ask(hi, tls) == /\ ph = "ask"
                 /\ PrintT(ToJson(CaseJson(hi, tls)))
-                /\ ph' = "done" /\ tbl' = tbl /\ gone' = gone
+                /\ ph' = "done" /\ tbl' = tbl /\ gone' = gone /\ seenBy' = seenBy
 Next == \/ \E i \in RouteIds : Grow(i)
         \/ \E i \in RouteIds : Retire(i)
+        \/ \E o \in ObsSel : Observe(o)
         \/ Seal
         \/ \E hi \in HostSel, tls \in BOOLEAN : Ask(hi, tls)
 Spec == Init /\ [][Next]_vars
@@ -182,13 +194,15 @@ Spec == Init /\ [][Next]_vars
 \* are printed by a single action
 AskAll == /\ ph = "ask"
           /\ \A hi \in HostSel, tls \in BOOLEAN : PrintT(ToJson(CaseJson(hi, tls)))
-          /\ ph' = "done" /\ tbl' = tbl /\ gone' = gone
+          /\ ph' = "done" /\ tbl' = tbl /\ gone' = gone /\ seenBy' = seenBy
 SimNext == (\E i \in RouteIds : Grow(i)) \/ (\E i \in RouteIds : Retire(i)) \/ Seal \/ AskAll
 SimSpec == Init /\ [][SimNext]_vars
 
 \* the same enumeration without printing, for the well-definedness check
-QInit == tbl = {} /\ gone = {} /\ ph = "build"
-QNext == (\E i \in RouteIds : Grow(i)) \/ (\E i \in RouteIds : Retire(i)) \/ Seal
+QInit == tbl = {} /\ gone = {} /\ seenBy = {} /\ ph = "build"
+QNext == (\E i \in RouteIds : Grow(i)) \/ (\E i \in RouteIds : Retire(i)) \/ (\E o \in ObsSel : Observe(o)) \/ Seal
+\* reading does not change the table (and hence no answer)
+ObserveInv == [][(\E o \in ObsSel : Observe(o)) => tbl' = tbl /\ gone' = gone]_vars
 QSpec == QInit /\ [][QNext]_vars
 
 \* Best is well defined: on every well-posed table of the universe, for every request,
